@@ -67,7 +67,7 @@ def generate(rng, tier, cls):
                 # integers longer than the interpreter converts
                 v = rng.choice(['9', '1', '-7']) * rng.choice([4300, 4301,
                                                                5000])
-            elif rng.chance(0.06):
+            elif rng.chance(0.12):
                 # ... or just beyond one read-ahead block
                 v = 'y' * rng.randint(60, 330)
                 long_header = True
@@ -122,7 +122,7 @@ def generate(rng, tier, cls):
     sk = gen.gen_stream(rng)[0]
     sx = gen.gen_stream_extras(rng)
 
-    if long_header and rng.chance(0.4):
+    if long_header and rng.chance(0.6):
         # ... read from a raw / packet-like stream
         sk = rng.choice(['sim', 'minimal'])
         sx['short_hdr'] = rng.randint(0, 999)
@@ -196,8 +196,18 @@ def execute(scn, L):
     out.absorb(w1)
 
     if end != 'eof' or len(orig) != len(ref):
-        out.discarded = 'intact-unreadable'
-        return out
+        # the unextended file cannot be read the way this scenario reads
+        # (that is C03's / C17's business, not a verdict here) - but it must
+        # not hide what happens to the extended file either: take the
+        # records of a plain reading as the original ones
+        w1 = World(scn, L)
+        orig, end, exc = read_all(w1, intact, actor='orig-plain')
+        out.absorb(w1)
+        out.probe('intact_file_read_plainly')
+
+        if end != 'eof' or len(orig) != len(ref):
+            out.discarded = 'intact-unreadable'
+            return out
 
     # keep only skew faults inside the domain
     faults = []
